@@ -386,7 +386,15 @@ def dispatch_case(ctx, case):
                 log.append((world.next_seq(), l['id'], idx))
                 if l['write'] and writes_at(idx):
                     mode, text = l['write'][0], l['write'][1]
-                    conn.write_packet(sb.play.ChatPacket(message=text),
+                    if case.get('reuse_packets'):
+                        # one packet object per writing listener, handed to
+                        # write_packet again each time (its text is filled
+                        # in anew): every hand-over is a write of its own
+                        pk = reused.setdefault(l['id'], sb.play.ChatPacket())
+                        pk.message = text
+                    else:
+                        pk = sb.play.ChatPacket(message=text)
+                    conn.write_packet(pk,
                                       force=(1 if l['id'] % 2 else True)
                                       if mode == 'forced' else
                                       (0 if l['id'] % 2 else False))
@@ -394,6 +402,9 @@ def dispatch_case(ctx, case):
                     raise IgnorePacket
             return fn
         shared_deco = {}
+        reused = {}
+        if case.get('reuse_packets'):
+            ctx.label('listener_rewrites_one_packet_object')
         fns = {}
         by_gid = {x['id']: x for x in allL}
         ckind = case.get('callables') or 'function'
@@ -900,6 +911,7 @@ def case_strategy():
             'version': st.just(v), 'history': st.just(h),
             'listeners': listeners_strategy(len(h)),
             'decorator': st.sampled_from([False, True, 'shared']),
+            'reuse_packets': st.booleans(),
             'callables': st.sampled_from(CALLABLES)}))
     return st.sampled_from([757, 757, 340, 47]).flatmap(fv).map(sanitize)
 
@@ -968,6 +980,7 @@ def t_fixed(ctx):
                 ls[li]['ignore'] = [idx]
                 case = sanitize({'version': v, 'history': hist,
                                  'listeners': ls, 'decorator': idx % 2 == 0,
+                                 'reuse_packets': (li + idx) % 3 != 0,
                                  'callables': CALLABLES[(li + idx) % len(CALLABLES)]})
                 dispatch_case(ctx, case)
     ctx.sample({'version': 757, 'history': hist, 'listeners': base[:3]},
